@@ -1,12 +1,19 @@
 import FluteModel.Lemmas.BencStream
 import FluteModel.Lemmas.BencSim
 import FluteModel.Lemmas.BencEmpty
+import FluteModel.Lemmas.BencSessionSim
 /-
   C20 - object sources interchangeable.
 
   `Stream = {bytes, pos, sched}`: `read(buf)` returns `min(buf.len, max(1, sched head), remaining)` bytes (any
   positive short read, 0 only at the end), one schedule entry per call, exhausted schedule = full reads.
   All statements are for ALL bytes, ALL positions and ALL schedules.
+  A schedule entry 0 is read as 1: the model cannot express a `read()` that returns `Ok(0)` before the end of the
+  stream.  Justification: `std::io::Read::read` documents `Ok(0)` for a non-empty buffer as "this reader has reached its
+  end of file"; `read_block_stream` (like `read_exact`, `read_to_end`, `BufReader`) relies on that contract and treats
+  `Ok(0)` as EOF (`Ok(0) => break`), so a source that violates the contract gets a short block exactly as a source that
+  really ended would.  "Whatever sizes its reads return" is therefore "any POSITIVE size"; read errors
+  (`Err(Interrupted)` is retried, any other `Err` ends the transfer) are outside the model - recorded in props.d/C20.json.
 -/
 namespace Flute.Props.C20
 open Flute Flute.Fec Flute.BlockEnc Flute.BencArith Flute.BencBlocks Flute.BencInv Flute.BencTrace Flute.BencShape Flute.BencStream Flute.BencSim
@@ -77,6 +84,25 @@ theorem each_transfer_rereads_n {P : Params} {c : Bytes} {aL aS nL n : Nat} (h :
   rw [runAll_eq_runPairs]
   exact ⟨nTransfers_stream h.setup h.accepts h.part h1 fuel k st hst,
          nTransfers_buffer h.setup h.accepts h.part h1 fuel k⟩
+
+/-- **source independence on the function the driver runs** (`Session.runLoop` / `Session.read`, C08's glue model of
+    `SenderSession::run` + `FileDesc` + `Fdt::transfer_done`): for a freshly added non-empty object, ANY history of
+    `Sender::read`, `remove_object` and clock advances returns exactly the same results (packets incl. payload, B flag,
+    source block length; `None`s) whether the bytes are supplied in a buffer or as a stream holding the same bytes at ANY
+    position with ANY read schedule.  This covers every repeated transfer with its real per-transfer `closabled_object`
+    (`is_last_transfer`), carousel rounds, forced stops, the source being handed from transfer to transfer in whatever
+    state the previous one left it (`release`: `src := e'.src`): "every repeated transfer re-reads the source from its
+    start" for all transfer counts.  (`nTransfers` / `each_transfer_rereads_n` below is the special case of unforced
+    transfers with one fixed flag.) -/
+theorem session_source_independent {c : Bytes} {aL aS nL n : Nat} (ops : List Flute.BencSession.Op) (x0 : Session)
+    (st : BlockEnc.Stream) (hst : st.bytes = c) (hsrc : x0.src = .buffer c)
+    (hnl : x0.P.legacy = false) (he : 0 < x0.P.e) (hb : 0 < x0.P.b) (hlen : x0.P.len = c.length) (hl : 0 < c.length)
+    (hw : 1 ≤ x0.P.window) (hq : Partition.blockPartitioning x0.P.b x0.P.len x0.P.e = .ok (aL, aS, nL, n))
+    (hA : Accepts x0.P c aL aS nL n) (hle : Flute.BencPsi.SymLe x0.P.codec) (henc : x0.enc = none) :
+    (Flute.BencSession.srun ops x0).1 = (Flute.BencSession.srun ops { x0 with src := .stream st }).1 := by
+  have hg := Flute.BencSession.sgood_init x0 hsrc hnl he hb hlen hl hw hq hA hle henc
+  refine Flute.BencSessionSim.ssim_run ops x0 _ ?_ hg
+  exact ⟨rfl, hsrc, ⟨st, rfl, hst⟩, rfl, rfl, rfl, rfl, rfl, rfl, rfl, rfl, rfl, Or.inl ⟨henc, henc⟩⟩
 
 /-- the empty object: buffer and stream both send the lone empty packet, then `None` - when the codec yields no shard for
     the empty buffer (`Quiet`: No-Code, Reed-Solomon).  Forced or not, any schedule, any position. -/
